@@ -250,7 +250,12 @@ def gen_cases(rng, tier):
             opts["lineterminator"] = r.choice(["\r\n", "\n", "\r", "\\r\\n", "\\n", "\\r", "\n", "\r"])
         else:
             opts["lineterminator"] = r.choice(["\n\n", "\n\r", "\\t", ";", "\\n\\n", "xy"])
-        cases.append({"kind": "recs", "recs": recs, "opts": opts})
+        case = {"kind": "recs", "recs": recs, "opts": opts}
+        if r.chance(12):
+            names0 = [n_ for _, n_ in recs[0][1][1]]
+            case["adapter_twice"] = r.choice([{"fields": ",".join(names0[:1])}, {"exclude": ",".join(names0[:1])},
+                                              {"fields": "nope"}, {"lineterminator": ";"}])
+        cases.append(case)
     # consecutive records of two types of one name whose identifiers (name + 32-bit hash) coincide: still a type change
     G0 = {"_generated": ["dt", [2020, 1, 2, 3, 4, 5, 6], "utc", 0]}
     c1 = ["t/col", [["wstring", "ra"]]]
@@ -448,7 +453,17 @@ def run_real(case):
             except Exception:
                 pass            # str() of an unselected value raised: the case is not modelled
             try:
-                w = CsvfileWriter(path, **case["opts"])
+                if case.get("adapter_twice"):
+                    # the writer is opened through RecordWriter("csvfile://<path>", ...): once with OTHER keyword arguments
+                    # (output discarded), then again with this case's options - a URL does not remember earlier arguments
+                    from flow.record import RecordWriter
+                    w0 = RecordWriter("csvfile://" + path, **case["adapter_twice"])
+                    for rec in recs[:1]:
+                        w0.write(rec)
+                    w0.close()
+                    w = RecordWriter("csvfile://" + path, **case["opts"])
+                else:
+                    w = CsvfileWriter(path, **case["opts"])
                 for rec in recs:
                     w.write(rec)
                 w.flush()
